@@ -194,4 +194,6 @@ def run(rep):
     leg_a(rep, 3 if quick else 4)
     leg_b(rep, 60 if quick else 1000, 25 if quick else 30, ACTS)
     leg_repo_tests(rep)
+    from .. import sites_checks as sc
+    sc.split_sweep(rep, 130 if quick else 400, 16 if quick else 40)
     rep.exhaustive = True
